@@ -76,6 +76,11 @@ impl<K, V, S> BaseCache<K, V, S> {
     pub(crate) fn verif_write_queue_capacity(&self) -> usize {
         self.inner.write_op_ch.capacity().unwrap_or(usize::MAX)
     }
+
+    /// Capacity of the bounded read operation queue.
+    pub(crate) fn verif_read_queue_capacity(&self) -> usize {
+        self.inner.read_op_ch.capacity().unwrap_or(usize::MAX)
+    }
 }
 
 impl<K, V, S> Inner<K, V, S>
